@@ -6,6 +6,7 @@ mod m5;
 mod sched;
 mod m6;
 mod m7;
+mod hist;
 mod util;
 use util::*;
 
@@ -34,6 +35,16 @@ fn main() {
         ("c05", Some(p)) => m6::replay(&args, "C05", p),
         ("c04f", None) => m7::run_c04f(&args),
         ("c04f", Some(p)) => m5::replay(&args, "C04", p),
+        ("c06", None) => hist::run_c06(&args),
+        ("c07", None) => hist::run_c07(&args),
+        ("c08", None) => hist::run_c08(&args),
+        ("c09", None) => hist::run_c09(&args),
+        ("c10", None) => hist::run_c10(&args),
+        ("c06", Some(p)) => m5::replay(&args, "C06", p),
+        ("c07", Some(p)) => m5::replay(&args, "C07", p),
+        ("c08", Some(p)) => m5::replay(&args, "C08", p),
+        ("c09", Some(p)) => m5::replay(&args, "C09", p),
+        ("c10", Some(p)) => m5::replay(&args, "C10", p),
         (other, _) => {
             eprintln!("unknown command {other}");
             std::process::exit(2);
